@@ -11,10 +11,12 @@ package receiver
 //@ immutable Downloader.r
 //@ guarded Receiver.snapshotsByInstance, Receiver.lastSeenByInstance, Receiver.downloadersByInstance, Receiver.hasSnapshots, Receiver.corruptSnapshots by Receiver.mu
 
+// MarkCorrupt records every name it is given (a second report of the same
+// name changes nothing).
 //@ func (r *Receiver) MarkCorrupt
 //@   requires lock_free_on_entry: !held(r.mu)
-//@   trusted
 //@   pure
+//@   ensures the_name_is_recorded: inMap(r.corruptSnapshots, filename)
 //@   lockcheck
 //@   ghost ncorrupt := ghost_ncorrupt + 1
 // Next takes a pending update out of the table only to hand it to the caller
